@@ -66,7 +66,7 @@ PROPS = {
                 gen=lambda seed, tier: gen.gen_descr_cases(seed, 20000 if tier == 'thorough' else 2000), flavours=['c'],
                 rule='descriptions printed from a random AST with random layout (whitespace, newlines, comments, optional semicolons, TERM sections anywhere, redeclarations with and without the code, explicit and implicit codes, char constants, all translation forms), 30% byte-mutated, 10% arbitrary bytes; return code, error line, terminals-with-codes and rules vs the Lean lexer/parser model; parses through the description-defined object and its callback-defined twin both judged against the model',
                 assumptions=COMMON_ASSUME + ['the acceptance of a token sequence by the bison-generated parser is the language of the productions of sgramm.y (bison reports no conflict; bison is trusted)']),
-    'C16': dict(level='proof', theorem_modules=['C01', 'C10', 'C15', 'C19'], min_theorems=8, crash_counts=True, compare_flavours=True,
+    'C16': dict(level='proof', theorem_modules=['C16', 'C01', 'C10', 'C15', 'C19', 'Generated'], min_theorems=8, crash_counts=True, compare_flavours=True,
                 tags=['C01', 'C02', 'C05', 'C06', 'C07', 'C09', 'C10', 'C11', 'C13', 'C14', 'C15'],
                 gen=lambda seed, tier: (gen.gen_parse_cases(seed, 4000 if tier == 'thorough' else 350, 'C01') +
                                         gen.gen_parse_cases(seed + 1, 4000 if tier == 'thorough' else 300, 'C07', maxlen=8) +
@@ -74,7 +74,7 @@ PROPS = {
                                         gen.gen_descr_cases(seed + 3, 3000 if tier == 'thorough' else 300) +
                                         gen.gen_big_symbol_cases(seed + 4, 40 if tier == 'thorough' else 6)), flavours=['c', 'cxx'],
                 rule='the case families of C01, C07, C14/C15 and C11 plus grammars with hundreds of symbols (C++ containers grow past their initial sizes) are run through libyaep and through class yaep (libyaep++); the two observation streams (return codes, messages, callbacks, flags, exported trees, free_tree traces, hook dumps) must be identical line by line, and both are judged against the same Lean model',
-                assumptions=COMMON_ASSUME + ['no theorem of its own: the claim is that both implementations correspond to the same proved model']),
+                assumptions=COMMON_ASSUME + ['cxx_methods_forward is about the method bodies the translator extracts from yaep.cpp (regex-based, checked for one statement per method); that yaep.cpp includes yaep.c compiled as C++ and uses the C++ containers is covered by the stream comparison, not by a theorem']),
     'C12': dict(level='exploration', theorem_modules=['C01', 'C19'], min_theorems=4, tags=['C12'], crash_counts=True,
                 gen=lambda seed, tier: (gen.gen_hostile_cases(seed, 30000 if tier == 'thorough' else 2500) +
                                         gen.gen_parse_cases(seed + 1, 6000 if tier == 'thorough' else 400, 'C07', maxlen=9) +
@@ -452,7 +452,8 @@ def run_property(pid, P, cases, tier, seed, replay=False):
             feats.update(case_features(st))
         cov['evaluations'] += len(cases)
         if not cov['samples'] and cases:
-            cov['samples'] = [cases[min(len(cases) - 1, 7)]]
+            # one corpus case (past failure, runs first) and two generated ones
+            cov['samples'] = [cases[0], cases[len(cases) // 2], cases[-1]] if len(cases) > 2 else list(cases)
     if P.get('compare_flavours') and len(obs_by_flavour) == 2:
         (fa, oa), (fb, ob) = list(obs_by_flavour.items())
         ndiff = 0; ncmp = 0
